@@ -9,6 +9,7 @@ structure Eng where
   key : Nat
   globals : List (String × Int) := []
   funs : List (String × Int) := []
+  convs : List String := []                 -- user conversions registered in THIS engine
 
 structure TlsDrv where
   tls : Tls Locals := Tls.empty
@@ -54,6 +55,10 @@ def tlsStep (d : TlsDrv) (w : List String) : TlsDrv :=
              if (en.funs.lookup name).isSome then { d with out := d.out ++ ["err"] }
              else { (setEng d e { en with funs := updAssoc en.funs name v }) with out := d.out ++ ["ok"] }
          | "call" => { d with out := d.out ++ [match en.funs.lookup name with | some x => toString x | none => "undef"] }
+         | "conv" =>
+             if en.convs.contains name then { d with out := d.out ++ ["err"] }
+             else { (setEng d e { en with convs := name :: en.convs }) with out := d.out ++ ["ok"] }
+         | "useconv" => { d with out := d.out ++ [if en.convs.contains name then toString (10 + (name.toNat?.getD 0)) else "undef"] }
          | _ => d)
   | _ => d
 
